@@ -71,6 +71,16 @@ CHECKS = {
               'and pair relations (monotone, marginal bound, QSS==MFJ). Exhaustive below 100000 in the thorough tier; sampled above.'),
         note='Trusted: data/brackets.json (typed from Rev. Proc. 2020-45/2021-45/2022-38), the IRS row layout and half-up rounding rule, CPython Fractions.',
         design='3/C07'),
+    'C09': dict(
+        category='exploration',
+        technique='gate-mode scenario generation (persona steered per gate, declaring answer injected, consultation proved by a recording input store) + isolated evaluation of owning lines under recorded witness assignments and typed random reads + limit recipes with just-below controls',
+        text=('For each of the ~70 reviewed gate inputs per year a persona pulls in the owning form and the declaring answer is injected (alone, with '
+              'others, or into random solving returns); whenever the recording store shows the gate consulted with that value by a line that can act '
+              'on it, the solve must not succeed. Each owning line is also evaluated in isolation with the gate declared: it must consult the gate '
+              '(deterministic witness from the pinned tree) and never produce a value. Amount limits (foreign tax, Schedule B rows, HSA, educator '
+              'expenses, 1099-OID) are straddled with a control at the limit that solves. Evidence lists gates never consulted.'),
+        note='Trusted: data/gates.json (reviewed list), data/gate_witnesses.json (assignments recorded at the pinned tree), scenario generator.',
+        design='3/C09'),
     'C10': dict(
         category='exploration',
         technique='per-line fuzzing of every line definition on catalogue-typed mock stores (Hypothesis draws per read) with a catalogue-membership oracle and exception bucketing',
